@@ -78,6 +78,16 @@ def adversarial(tier="thorough"):
             ("toml", b"a = " + b"9" * 100000), ("toml", b"a" * 100000 + b" = 1"), ("toml", b'a = """' + b"\\" * 99999),
             ("toml", corpus.toml_dotted_nest(8)), ("toml", corpus.toml_dotted_nest(20)), ("toml", corpus.toml_dotted_nest(60)),
             ("yaml", b"a" * 200000), ("yaml", b"\xef\xbb\xbf" * 1000), ("yaml", b"\xff\xfe" + b"a\x00" * 5000), ("yaml", b"\x00\x00\xfe\xff" + b"\x00\x11\x00\x00" * 10)]
+    # failures whose message quotes thousands of multi-byte characters, at every alignment (a message that is cut, wrapped or
+    # measured in bytes must still be cut at a character)
+    for ch in ("\u00e9", "\u20ac", "\U0001f600"):
+        for shift in range(4):
+            pad = "x" * shift
+            out.append(("toml", ('%sk = "%s" @\n' % (pad, ch * 2500)).encode()))
+            out.append(("toml", ('%s = 1\n%s = 1\n' % (pad + ch * 1500, pad + ch * 1500)).encode()))      # duplicate key, quoted in the message
+            keys = [pad + ch * 40 + str(i) for i in range(30)]
+            out.append(("yaml", ("".join("  " * i + k + ":\n" for i, k in enumerate(keys)) + "  " * 30 + "~: 1\n").encode()))
+            out.append(("yaml", ('%sk: "%s\n' % (pad, ch * 3000)).encode()))        # unterminated string
     return out
 
 
